@@ -179,6 +179,15 @@ def check_C07(ctx):
     reproduce_asm(ctx, "C07", rej)
 
 
+def probe_slt88(ctx):
+    """Known finding K1 (known_findings.json): the two fixed inputs are run on the real code; while gmars accepts them the
+    check prints KNOWN-FINDING and passes, once it refuses them nothing is printed."""
+    r = ctx.harness_json(["probe88"])
+    ctx.notes["probe_slt_immediate_b_88"] = r
+    if r["asm" if ctx.prop == "C06" else "load"]:
+        ctx.violation("PROBE slt-immediate-b-88", "ICWS'88: %s is accepted" % ("'slt 1, #2' (CompileWarrior)" if ctx.prop == "C06" else "'SLT $ 1, # 2' (ParseLoadFile)"), dict(kind="probe88"))
+
+
 def check_C06(ctx):
     ctx.cov["rule"] = ("inputs: valid programs in arbitrary renderings, entry points at/beyond the end, programs of length L-1, L, L+1, 2L (also through FOR), '94 opcodes/modes/modifiers inside '88 programs, "
                        "illegal '88 operand combinations, extreme operand values (below -CORESIZE, above CORESIZE, +-2^31), token soup, single-token mutations; many configurations, both dialects. "
@@ -200,6 +209,7 @@ def check_C06(ctx):
         return "C06 out dialect=%s %s" % (e["dialect"], "start-outside" if e["res"].get("err") == 0 and e["res"].get("code") is not None and
                                         not (0 <= e["res"]["start"] < max(1, len(e["res"]["code"]))) else ("too-long" if len(e["res"].get("code", [])) > e["L"] else "instruction"))
     reproduce_asm(ctx, "C06", rej, replay_cmd="outs-replay", sigfn=sig)
+    probe_slt88(ctx)
 
 
 def check_C08(ctx):
@@ -535,6 +545,7 @@ def check_C10(ctx):
     ctx.notes.update(st)
     ctx.sample(read_line(shards[0], 3))
     reproduce_asm(ctx, "C10", rej, replay_cmd="rt-replay", sigfn=tool_sig, module="ToolTrace")
+    probe_slt88(ctx)
 
 
 def check_C16(ctx):
@@ -598,6 +609,9 @@ def check_C17(ctx):
     shards, st = gen_asm(ctx, "cli", args, "c17")
     rej, nom = validate_asm(ctx, shards, "C17", module="CliTrace", heap="6g")
     ctx.binding_selftest("CliTrace", shards, "C17", heap="6g")
+    st1 = ctx.notes.get("binding_selftest")
+    ctx.binding_selftest("CliTrace", shards, "C17D", heap="6g")       # ... and one line of a debug transcript
+    ctx.notes["binding_selftest"] = "%s; debug transcript: %s" % (st1, ctx.notes.get("binding_selftest"))
     ctx.cov["traces_validated_against_impl"] = st["invocations"]
     ctx.cov["evaluations"] = st["invocations"]
     ctx.cov["distinct_nontrivial"] = st["invocations"] - nom
